@@ -221,6 +221,10 @@ func USES(tier string, f func(Case)) {
 						}
 						w := ir.NewWorld(mods...)
 						f(Case{Desc: fmt.Sprintf("T=%s body#%d def=%s uses=%s,%s%s", T, bi, ds, s1.id, s2.id, variant), W: w, Flags: flags, Sites: used})
+						// the same schema with its prefixes spelled otherwise (dotted; the names of
+						// other loaded modules; one prefix declared by all modules)
+						ps := 1 + (bi+si+sj)%(ir.PrefixSchemes-1)
+						f(Case{Desc: fmt.Sprintf("T=%s body#%d def=%s uses=%s,%s%s prefix-scheme=%d", T, bi, ds, s1.id, s2.id, variant, ps), W: ir.Reprefix(w, ps), Flags: flags, Sites: used})
 					}
 				}
 			}
@@ -244,6 +248,8 @@ type AugSpec struct {
 	Mod    string
 	Target string // slash separated names below module a
 	Body   int
+	// Pfx (of the first augment of a list): the prefix scheme of the whole world, see ir.Reprefix
+	Pfx int `json:",omitempty"`
 }
 
 func augBase() (a, as *ir.Mod) {
@@ -328,7 +334,7 @@ func AugWorld(augs []AugSpec) *ir.World {
 			m.Rev = fmt.Sprintf("202%d-01-01", i)
 		}
 	}
-	return ir.NewWorld(order...)
+	return ir.Reprefix(ir.NewWorld(order...), augs[0].Pfx)
 }
 
 // validBody says whether the body kind fits the target kind in YANG terms (case only into a choice).
@@ -350,12 +356,20 @@ func AUG(tier string, f func(augs []AugSpec)) {
 				continue
 			}
 			for _, m := range mods {
-				one = append(one, AugSpec{m, t, b})
+				one = append(one, AugSpec{Mod: m, Target: t, Body: b})
 			}
 		}
 	}
+	withPfx := func(augs []AugSpec, ps int) []AugSpec {
+		out := append([]AugSpec{}, augs...)
+		out[0].Pfx = ps
+		return out
+	}
 	for _, a := range one {
 		f([]AugSpec{a})
+		for ps := 1; ps < ir.PrefixSchemes; ps++ {
+			f(withPfx([]AugSpec{a}, ps))
+		}
 	}
 	stride := 7
 	if tier == "thorough" {
@@ -365,8 +379,11 @@ func AUG(tier string, f func(augs []AugSpec)) {
 		if i%stride != 1 {
 			continue
 		}
-		for _, b := range one {
+		for j, b := range one {
 			f([]AugSpec{a, b})
+			if j%5 == i%5 {
+				f(withPfx([]AugSpec{a, b}, 1+(i+j)%(ir.PrefixSchemes-1)))
+			}
 		}
 	}
 	// chains of three: e created by the first, h below e by the second, a leaf below h by the third
@@ -374,8 +391,9 @@ func AUG(tier string, f func(augs []AugSpec)) {
 		for _, m2 := range mods {
 			for _, m3 := range mods {
 				for _, p := range [][3]int{{0, 1, 2}, {2, 1, 0}, {1, 2, 0}, {2, 0, 1}} {
-					specs := []AugSpec{{m1, "top/c", 1}, {m2, "top/c/e", 6}, {m3, "top/c/e/e/h", 0}}
+					specs := []AugSpec{{Mod: m1, Target: "top/c", Body: 1}, {Mod: m2, Target: "top/c/e", Body: 6}, {Mod: m3, Target: "top/c/e/e/h", Body: 0}}
 					f([]AugSpec{specs[p[0]], specs[p[1]], specs[p[2]]})
+					f(withPfx([]AugSpec{specs[p[0]], specs[p[1]], specs[p[2]]}, 1+(p[0]+len(m1)+len(m2)*2+len(m3))%(ir.PrefixSchemes-1)))
 				}
 			}
 		}
@@ -389,7 +407,16 @@ var tri = []string{"", "true", "false"}
 
 // CFG enumerates config assignments over composition contexts.
 func CFG(tier string, f func(Case)) {
-	mk := func(desc string, mods ...*ir.Mod) { f(Case{Desc: desc, W: ir.NewWorld(mods...)}) }
+	k := 0
+	mk := func(desc string, mods ...*ir.Mod) {
+		w := ir.NewWorld(mods...)
+		f(Case{Desc: desc, W: w})
+		if len(mods) > 1 {
+			k++
+			ps := 1 + k%(ir.PrefixSchemes-1)
+			f(Case{Desc: fmt.Sprintf("%s prefix-scheme=%d", desc, ps), W: ir.Reprefix(w, ps)})
+		}
+	}
 	// 1. plain nesting, five nodes deep
 	for c := 0; c < 243; c++ {
 		x := []string{tri[c%3], tri[c/3%3], tri[c/9%3], tri[c/27%3], tri[c/81%3]}
